@@ -74,7 +74,7 @@ func (p *process) Invoke(msgs []Envelope) {
 		if v := recover(); v != nil {
 			if !p.restartsExceeded(v) {
 				p.context.message = Stopped{}
-				p.context.receiver.Receive(p.context)
+				applyMiddleware(p.context.receiver.Receive, p.Opts.Middleware...)(p.context)
 			}
 
 			p.mbuffer = make([]Envelope, nmsg-nproc)
@@ -127,7 +127,7 @@ func (p *process) Start() {
 		if v := recover(); v != nil {
 			if !p.restartsExceeded(v) {
 				p.context.message = Stopped{}
-				p.context.receiver.Receive(p.context)
+				applyMiddleware(p.context.receiver.Receive, p.Opts.Middleware...)(p.context)
 			}
 			p.tryRestart(v)
 		}
